@@ -2930,6 +2930,12 @@ class HTTPChannel(basic.LineReceiver, policies.TimeoutMixin):
         """
         self.transport.write(b"HTTP/1.1 400 Bad Request\r\n\r\n")
         self.loseConnection()
+        # Some transports (TLS) keep delivering data which was already in
+        # flight after loseConnection(); nothing which follows a bad request
+        # may be processed.
+        self.dataReceived = self.lineReceived = self.rawDataReceived = (
+            lambda *args: None
+        )
 
 
 def _escape(s):
